@@ -360,27 +360,27 @@ def raiseSites6 : List Site := [
   ⟨927, 928, 102, 2, [156], true, true, [154, 148, 152, 151, 44], false⟩,  -- 339 duckdb_transpiler/Config/config.py:102
   ⟨927, 928, 112, 2, [156], true, true, [154, 148, 152, 151, 44], false⟩,  -- 340 duckdb_transpiler/Config/config.py:112
   ⟨929, 930, 732, 2, [704], true, true, [164], false⟩,  -- 341 duckdb_transpiler/Transpiler/__init__.py:732
-  ⟨929, 931, 1618, 3, [447], true, true, [164, 44], false⟩,  -- 342 duckdb_transpiler/Transpiler/__init__.py:1618
-  ⟨929, 932, 3660, 3, [180], true, true, [108, 80, 164], false⟩,  -- 343 duckdb_transpiler/Transpiler/__init__.py:3660
-  ⟨929, 933, 3849, 3, [624], true, true, [], false⟩,  -- 344 duckdb_transpiler/Transpiler/__init__.py:3849
+  ⟨929, 931, 1619, 3, [447], true, true, [164, 44], false⟩,  -- 342 duckdb_transpiler/Transpiler/__init__.py:1619
+  ⟨929, 932, 3662, 3, [180], true, true, [108, 80, 164], false⟩,  -- 343 duckdb_transpiler/Transpiler/__init__.py:3662
+  ⟨929, 933, 3851, 3, [624], true, true, [], false⟩,  -- 344 duckdb_transpiler/Transpiler/__init__.py:3851
   ⟨934, 935, 140, 3, [475], true, true, [474, 164, 472], false⟩,  -- 345 duckdb_transpiler/Transpiler/operators.py:140
-  ⟨936, 937, 62, 2, [653], true, true, [651, 44], false⟩,  -- 346 duckdb_transpiler/io/_execution.py:62
-  ⟨936, 938, 79, 2, [712], true, true, [164], false⟩,  -- 347 duckdb_transpiler/io/_execution.py:79
-  ⟨936, 938, 87, 2, [710], true, true, [164, 708, 709], false⟩,  -- 348 duckdb_transpiler/io/_execution.py:87
-  ⟨936, 938, 94, 2, [702], true, true, [164], false⟩  -- 349 duckdb_transpiler/io/_execution.py:94
+  ⟨936, 937, 63, 2, [653], true, true, [651, 44], false⟩,  -- 346 duckdb_transpiler/io/_execution.py:63
+  ⟨936, 938, 80, 2, [712], true, true, [164], false⟩,  -- 347 duckdb_transpiler/io/_execution.py:80
+  ⟨936, 938, 88, 2, [710], true, true, [164, 708, 709], false⟩,  -- 348 duckdb_transpiler/io/_execution.py:88
+  ⟨936, 938, 95, 2, [702], true, true, [164], false⟩  -- 349 duckdb_transpiler/io/_execution.py:95
 ]
 def raiseSites7 : List Site := [
-  ⟨936, 938, 98, 2, [715], true, true, [655], false⟩,  -- 350 duckdb_transpiler/io/_execution.py:98
-  ⟨936, 938, 107, 2, [235], true, true, [158, 159, 44], false⟩,  -- 351 duckdb_transpiler/io/_execution.py:107
-  ⟨936, 938, 112, 2, [235], true, true, [158, 159, 44], false⟩,  -- 352 duckdb_transpiler/io/_execution.py:112
-  ⟨936, 938, 117, 2, [235], true, true, [158, 159, 44], false⟩,  -- 353 duckdb_transpiler/io/_execution.py:117
-  ⟨936, 938, 126, 2, [680], true, true, [665], false⟩,  -- 354 duckdb_transpiler/io/_execution.py:126
-  ⟨936, 938, 130, 2, [456], true, true, [164], false⟩,  -- 355 duckdb_transpiler/io/_execution.py:130
-  ⟨936, 938, 136, 3, [494], true, true, [492, 493, 164], false⟩,  -- 356 duckdb_transpiler/io/_execution.py:136
-  ⟨936, 938, 140, 2, [220], true, true, [164], false⟩,  -- 357 duckdb_transpiler/io/_execution.py:140
-  ⟨936, 938, 142, 2, [220], true, true, [164], false⟩,  -- 358 duckdb_transpiler/io/_execution.py:142
-  ⟨936, 938, 146, 2, [460], true, true, [164, 44], false⟩,  -- 359 duckdb_transpiler/io/_execution.py:146
-  ⟨936, 938, 150, 2, [450], true, true, [164, 44], false⟩,  -- 360 duckdb_transpiler/io/_execution.py:150
+  ⟨936, 938, 99, 2, [715], true, true, [655], false⟩,  -- 350 duckdb_transpiler/io/_execution.py:99
+  ⟨936, 938, 108, 2, [235], true, true, [158, 159, 44], false⟩,  -- 351 duckdb_transpiler/io/_execution.py:108
+  ⟨936, 938, 113, 2, [235], true, true, [158, 159, 44], false⟩,  -- 352 duckdb_transpiler/io/_execution.py:113
+  ⟨936, 938, 118, 2, [235], true, true, [158, 159, 44], false⟩,  -- 353 duckdb_transpiler/io/_execution.py:118
+  ⟨936, 938, 127, 2, [680], true, true, [665], false⟩,  -- 354 duckdb_transpiler/io/_execution.py:127
+  ⟨936, 938, 131, 2, [456], true, true, [164], false⟩,  -- 355 duckdb_transpiler/io/_execution.py:131
+  ⟨936, 938, 137, 3, [494], true, true, [492, 493, 164], false⟩,  -- 356 duckdb_transpiler/io/_execution.py:137
+  ⟨936, 938, 141, 2, [220], true, true, [164], false⟩,  -- 357 duckdb_transpiler/io/_execution.py:141
+  ⟨936, 938, 143, 2, [220], true, true, [164], false⟩,  -- 358 duckdb_transpiler/io/_execution.py:143
+  ⟨936, 938, 147, 2, [460], true, true, [164, 44], false⟩,  -- 359 duckdb_transpiler/io/_execution.py:147
+  ⟨936, 938, 151, 2, [450], true, true, [164, 44], false⟩,  -- 360 duckdb_transpiler/io/_execution.py:151
   ⟨939, 940, 72, 0, [106], true, true, [29], false⟩,  -- 361 duckdb_transpiler/io/_io.py:72
   ⟨939, 941, 104, 0, [117], true, true, [112, 91, 29, 114], false⟩,  -- 362 duckdb_transpiler/io/_io.py:104
   ⟨939, 942, 254, 1, [54], true, true, [52, 50], false⟩,  -- 363 duckdb_transpiler/io/_io.py:254
